@@ -340,6 +340,23 @@ CHECKS["C20"] = {
     "outside": "pre-emptive interleavings inside Publish / SubscribeSignedVAA (the scheduler is cooperative: a goroutine runs until it blocks); gRPC transport; delivery multiplicity (a subscriber with two matching filters is sent the VAA twice today - recorded, not asserted); map iteration order other than insertion order",
     "assumptions": ["cooperative goroutine model; sync.Mutex with blocking Lock; buffered channels as FIFO queues", "uuid.New() returns fresh distinct ids; context model; gRPC stream = harness fake (draining / stalled)"],
 }
+CHECKS["C19"] = {
+    "runs": [
+        {"mod": "explorer-backend", "pkg": "./processor", "entry": "VerifC19_Gate", "reach": ["accepted", "rejected", "handoff-failed"], "opts": {"exactfmt": "true", "z3": "z3-new"},
+         "shards": {"quick": ["nsets=1", "nsets=2;nsig=0,1", "nsets=2;nsig=2", "nsets=2;nsig=3;setsize#0=1,2", "nsets=2;nsig=3;setsize#0=3", "nsets=3;nsig=0,1,2;setsize=1,2"],
+                    "thorough": ["nsets=1", "nsets=2;nsig=0,1", "nsets=2;nsig=2", "nsets=2;nsig=3"] + ["nsets=3;nsig=%d;named=%s" % (k, nm) for k in (0, 1, 2, 3) for nm in ("0", "1", "2", "3,70000")]},
+         "timeout": {"quick": 2400, "thorough": 30000}},
+        {"mod": "explorer-backend", "pkg": "./guardiansets", "entry": "VerifC19_Appends", "reach": ["end"], "opts": {"z3": "z3-new"}},
+        {"mod": "explorer-backend", "pkg": "./guardiansets", "entry": "VerifC19_LookupDuringAppend", "reach": ["end", "served"], "opts": {"z3": "z3-new"}},
+    ],
+    "bounds": {"quick": {"gate": "1..3 known guardian sets of 1..3 keys (set i has index i); VAA naming index 0..3 or 70000, signed by 0..3 keys of any one known set (so: the named set, or ANOTHER set) with symbolic index bytes; body symbolic with one-digit chain ids/sequence; persistence queue (capacity 1) empty or full; then the same VAA again",
+                         "appends": "1..3 known sets, then 1..2 appends of a contiguous batch [from..to] with symbolic bounds (to <= 6, from <= first unknown index, any overlap)",
+                         "lookup during append": "1..2 known sets, append of 1..2 sets, one lookup of index 0..3 forked after EVERY store the append performs to the shared object, and once afterwards"},
+               "thorough": {"gate": "3 sets with up to 3 signatures"}},
+    "outside": "more than one concurrent reader or writer; weak-memory reorderings and everything else only the race detector can tell (the interleaving is sequentially consistent, at the granularity of the writer's stores); the chain walk for a future index (the model has no network: it fails, as it does natively with an empty RPC URL); explorer-backend links the node module from the module cache (vaa.VerifySignatures / CalculateQuorum of that copy are what is executed)",
+    "assumptions": ["ecrecover/keccak model (DESIGN 4.1)", "dedup cache = harness map behind the gocache interface", "ethclient.Dial fails (no network)",
+                    "fmt %d exact rendering for the message id (one-digit operands)"],
+}
 
 # generated harness parts per (module, package): regenerated from /repo on every run for every check that loads the package
 GENERATORS = {("node", "./pkg/vaa"): [_gen_c04], ("node", "./pkg/processor"): [_gen_c07], ("node", "./pkg/alephium"): [_gen_c11], ("node", "./cmd/guardiand"): [_gen_c15]}
